@@ -9,6 +9,7 @@ from vmon.refs import txser as R
 from vmon.gen import txgen as G
 
 PROPERTY = "C07"
+PRELOAD_NETWORK_ORDERS = [["btc", "xtn", "ltc", "bch", "grs", "doge", "dash", "btg"], ["btg", "grs", "bch", "doge", "ltc", "xtn", "btc"]]
 LEVEL = "exploration"
 TECHNIQUE = "differential runtime monitor: every serialise/parse/id call of five Tx classes compared with an independent wire-format reference"
 RULE = ("cases: (transaction class, transaction) pairs; transactions from a deterministic sweep that puts each compact-size boundary "
